@@ -17,7 +17,8 @@ from harness.common import TranslateError, REPO
 DT = [('bool', 'DBool'), ('int8', 'DInt8'), ('int16', 'DInt16'), ('int32', 'DInt32'), ('int64', 'DInt64'),
       ('uint8', 'DUInt8'), ('uint16', 'DUInt16'), ('uint32', 'DUInt32'), ('uint64', 'DUInt64'),
       ('float16', 'DFloat16'), ('float32', 'DFloat32'), ('float64', 'DFloat64'),
-      ('complex64', 'DComplex64'), ('complex128', 'DComplex128'), ('U1', 'DStr'), ('O', 'DObj')]
+      ('complex64', 'DComplex64'), ('complex128', 'DComplex128'), ('U1', 'DStr'), ('O', 'DObj'),
+      ('float128', 'DFloat128'), ('complex256', 'DComplex256')]
 
 
 def _coq_of_dtype(dt):
